@@ -11,10 +11,19 @@ def run(rep, tier, seed, replay_file=None):
     quick = tier == "quick"
     rep.assumptions += pc.ASSUMPTIONS + [
         "C04 premise (DESIGN 5.0): the leak obligation starts when the input is exhausted and drained, or Close was "
-        "called on the output (Split: on every output), or the context of the first advance is cancelled; goroutines "
-        "still inside a user function the harness has not released are not the library's",
-        "the stop-versus-advance races are sampled (RaceReps repetitions per construct), not enumerated: a clean run "
-        "bounds the probability of the race outcomes seen, it does not exclude them",
+        "called on the output (Split: on every output), or the context of the first advance is cancelled - by the client, "
+        "or by Close of the output that made the first advance (that Close cancels the context the background work was "
+        "started with); goroutines still inside a user function the harness has not released are not the library's",
+        "reading of 'a finite input always leads to io.EOF (no deadlock)' for several consumers (Split outputs, concurrent "
+        "ReadOne) that advance under contexts of their own: whatever the siblings did (Close, cancellation), a consumer "
+        "whose own output is open and whose own context is live is not left blocked at a quiescent point where no user "
+        "function is held - sources are finite and never block, so its advance ends with an item or with the end; "
+        "abandoning an output without Close is still explored and not judged",
+        "a worker that invokes a context-respecting user function with an already cancelled context more than 1000 times "
+        "the spec's bound on ALL invocations of a run (n + 2k), each invocation returning the context's error at once, "
+        "is counted as never exiting (the harness then parks it, so that the run can be observed at quiescence)",
+        "the stop-versus-advance races and the fill races are sampled (RaceReps / FillReps repetitions per construct), "
+        "not enumerated: a clean run bounds the probability of the race outcomes seen, it does not exclude them",
     ]
     # 1. design level
     jobs = pc.IMPL_SMALL + [("FirstAdvance", "MC_firstadvance.cfg")]
@@ -26,19 +35,34 @@ def run(rep, tier, seed, replay_file=None):
 
     # 2. model -> code: schedules with every cut point and every stop mode
     behs = pc.gen(rep, "Ctl_c04_edge.cfg", "one shortest schedule per terminal edge of the abstract state graph: "
-                  "every (construct, n, k, cut point, stop mode) state is reached and then cleaned up or finished")
+                  "every (construct, n, k, cut point, stop mode, per-consumer context, burst) state is reached and then "
+                  "cleaned up or finished; context-respecting user functions with options ContinueOnError+IncludeContextErrors")
     if quick:
-        behs = pc.sample(behs, 1500, seed)
+        # the contended bursts are few and each is a (repeated) race: never sampled away
+        behs = pc.sample([b for b in behs if not pc.contended(b)], 1500, seed) + [b for b in behs if pc.contended(b)]
     else:
         rep.cov["exhaustive"] = True      # all schedules of <= Depth steps for n <= 2, k <= 2 (Ctl_c04_all.cfg)
         behs += pc.gen(rep, "Ctl_c04_all.cfg", "every schedule of at most Depth driver steps", timeout=900)
-    sim = pc.gen(rep, "Ctl_c04_sim.cfg", "random schedules n <= 8, k <= 4", simulate=dict(num=150 if quick else 3000),
+        burst = pc.gen(rep, "Ctl_c04_burst.cfg", "map / gen / pbufg with n <= 5, k <= 3: one schedule per terminal edge", timeout=900)
+        behs += pc.sample([b for b in burst if pc.contended(b)], 150, seed) + pc.sample([b for b in burst if not pc.contended(b)], 1500, seed)
+    sim = pc.gen(rep, "Ctl_c04_sim.cfg", "random schedules n <= 8, k <= 4, all eight option combinations", simulate=dict(num=150 if quick else 3000),
                  depth=30, seed=seed)
     behs = replay.dedupe(behs + sim)
+    # a contended burst is a race the hardware decides: those schedules get the race driver (own process, a hit is
+    # re-run with more repetitions before it is reported)
+    bursts = [b for b in behs if pc.contended(b)]
+    behs = [b for b in behs if not pc.contended(b)]
+    if quick:
+        # every burst on a buffered pipe (BurstReps repetitions), a sample of those on a rendezvous (3 repetitions)
+        hot = [b for b in bursts if any(s["op"] == "brel" and s["arg"] > 3 for s in b["steps"])]
+        bursts = hot + pc.sample([b for b in bursts if b not in hot], 30, seed)
     races = pc.gen(rep, "Ctl_c04_race.cfg" if quick else "Ctl_c04_race_full.cfg",
                    "unsynchronised Close / cancel against free-running consumers, one configuration per construct")
     races = [b for b in races if b["steps"][0]["op"] in ("race-close", "race-cancel")]
-    if not behs or not races:
+    fills = pc.gen(rep, "Ctl_c04_fill.cfg" if quick else "Ctl_c04_fill_full.cfg",
+                   "a consumer takes one or two items of a long input and stops while several senders fill the pipe, one configuration per construct")
+    fills = [b for b in fills if b["steps"][0]["op"] in ("race-fill-close", "race-fill-cancel")]
+    if not behs or not races or not fills:
         return
     binary = harness.build(pc.BINARY)
     env = {"GOMAXPROCS": str(1 + seed % 4)}
@@ -46,16 +70,24 @@ def run(rep, tier, seed, replay_file=None):
                   nontrivial=pc.nontrivial, timeout=1800)
     # the races need real parallelism; a crash of the process (panic in a library goroutine) is re-run alone
     pc.replay_races(rep, binary, races, par=6 if quick else 8, env={"GOMAXPROCS": "4"})
+    pc.replay_races(rep, binary, fills, par=6 if quick else 8, env={"GOMAXPROCS": "4"}, label="pipeline/stop-while-pipe-fills")
+    if bursts:
+        pc.replay_races(rep, binary, bursts, par=6 if quick else 8, env={"GOMAXPROCS": "4"}, label="pipeline/contended-burst",
+                        retry_env={"VH_BURST_REPS": "400"})
     stops = [b for b in behs if any(s["op"] in ("close", "cancel") for s in b["steps"]) and len(b["steps"]) >= 4]
     if stops:
         rep.sample(dict(kind="replayed schedule with a stop", behaviour=stops[len(stops) // 2]))
     rep.sample(dict(kind="race behaviour", behaviour=races[0]))
     pc.binding_self_tests(rep, binary, "C04")
     rep.cov["rule"] = (
-        "behaviours = driver schedules of PipelineCtl with Close / cancel / Close-then-cancel / cancel-then-Close / "
-        "Close-before-any-advance / Split CloseOutput(j) at every cut point (one per terminal edge of the abstract graph; "
-        "thorough: all of <= Depth steps for n<=2,k<=2; random n<=8,k<=4) for all 16 constructs, plus per construct "
-        "RaceReps unsynchronised stop-versus-advance repetitions; after every step the real construct runs to quiescence: "
-        "a Close must have returned, a consumer that must have returned is not blocked, Run has returned, and where the "
-        "premise holds and no user function is held the census (goroutines with a tychoish/fun frame, minus the baseline "
-        "taken at the start of the behaviour) is empty.  non-trivial = n > 0 and more than a bare finish")
+        "behaviours = driver schedules of PipelineCtl with Close / cancel of the parent context / cancel of ONE consumer's "
+        "context / Close-then-cancel / cancel-then-Close / Close-before-any-advance / Split CloseOutput(j) at every cut point, "
+        "single and burst releases of user functions (plain and context-respecting, options e/p/c) "
+        "(one per terminal edge of the abstract graph; thorough: all of <= Depth steps for n<=2,k<=2, map/gen/pbufg n<=5,k<=3; "
+        "random n<=8,k<=4) for all 17 constructs, plus per construct RaceReps unsynchronised stop-versus-advance repetitions "
+        "and FillReps repetitions of a stop that lands while the senders fill the pipe; after every step the real construct "
+        "runs to quiescence: a Close must have returned, a consumer that must have returned is not blocked - neither one "
+        "that was stopped nor a live sibling of a stopped one -, Run has returned, no worker keeps calling a user function "
+        "whose context is cancelled, and where the premise holds and no user function is held the census (goroutines with a "
+        "tychoish/fun frame, minus the baseline taken at the start of the behaviour) is empty.  non-trivial = n > 0 and "
+        "more than a bare finish")
